@@ -445,9 +445,15 @@ impl<'r, D: Doc> Node<'r, D> {
   #[cfg(not(target_arch = "wasm32"))]
   pub fn next_all(&self) -> impl Iterator<Item = Node<'r, D>> + '_ {
     // if root is none, use self as fallback to return a type-stable Iterator
-    let node = self.parent().unwrap_or_else(|| self.clone());
+    let parent = self.parent();
+    let has_parent = parent.is_some();
+    let node = parent.unwrap_or_else(|| self.clone());
     let mut cursor = node.inner.walk();
-    cursor.goto_first_child_for_byte(self.inner.start_byte());
+    // the root has no sibling: the cursor stays on it (it cannot leave its starting node)
+    // instead of descending to the root's own children
+    if has_parent {
+      cursor.goto_first_child_for_byte(self.inner.start_byte());
+    }
     std::iter::from_fn(move || {
       if cursor.goto_next_sibling() {
         Some(self.root.adopt(cursor.node()))
